@@ -147,7 +147,7 @@ func (r *rewriter) rewriteFile(f *loader.File, printer FilePrinter) {
 		coName = imports.ImportName(f, pkgCoPath, pkgCoName)
 		assert(coName != "") // coPkg != nil
 		seqName = imports.ImportName(f, pkgSeqPath, pkgSeqName)
-		if seqName == "" {
+		if seqName == "" || seqName == "_" { // a blank import gives no name to refer to
 			seqName = importSeqName
 			astutil.AddNamedImport(fset, f, importSeqName, pkgSeqPath)
 		}
